@@ -227,7 +227,73 @@ def run_relabel(x):
     return x
 
 
+# ------------------------------------------------------------------------------- C12
+INT_IDS = [3, 7, 8, 12]
+STR_IDS = ["a", "b", "c", "d"]
+UNKNOWN = 99
+
+
+def gen_import(args):
+    R_max = args["maxrows"]
+    variants = args["variants"]            # list of [mapkind, noneenc]
+    for R in range(1, R_max + 1):
+        for idn in itertools.product(range(1, R + 1), repeat=R):
+            for par in itertools.product(list(range(0, R + 1)) + [UNKNOWN], repeat=R):
+                for time in itertools.product(range(3), repeat=R):
+                    for kind in ("int", "str"):
+                        malformed = len(set(idn)) < R or any(p == UNKNOWN or (p != 0 and p not in idn) for p in par) \
+                            or any(p == i for p, i in zip(par, idn))
+                        for drop in (["none"] if malformed else ["none", "time", "id", "parent_id", "pos", "badcol"]):
+                            for mk, ne in (variants if drop == "none" else variants[:1]):
+                                yield {"R": R, "idn": list(idn), "par": list(par), "time": list(time), "kind": kind,
+                                       "drop": drop, "mapkind": mk, "noneenc": ne}
+
+
+def run_import(x):
+    import pandas as pd
+    from funtracks.import_export.csv._import import tracks_from_df
+    R, kind = x["R"], x["kind"]
+    pool = INT_IDS if kind == "int" else STR_IDS
+    unknown = 99 if kind == "int" else "zz"
+    # an empty CSV cell is NaN once read; a literal "" only occurs in columns of string ids
+    none = {"-1": -1, "nan": None, "empty": "" if kind == "str" else None}[x["noneenc"]]
+    ids = [pool[k - 1] for k in x["idn"]]
+    par = [none if p == 0 else (unknown if p == UNKNOWN else pool[p - 1]) for p in x["par"]]
+    if kind == "int" and none is None:
+        par = pd.array([p if p is not None else pd.NA for p in par], dtype="Int64")
+    names = {"identity": {"time": "time", "id": "id", "parent_id": "parent_id", "y": "y", "x": "x", "c": "c"},
+             "renamed": {"time": "t", "id": "ident", "parent_id": "par", "y": "Y", "x": "X", "c": "my_custom"}}[x["mapkind"]]
+    df = pd.DataFrame({names["time"]: x["time"], names["id"]: ids, names["parent_id"]: par,
+                       names["y"]: [float(10 * r + 1) for r in range(1, R + 1)],
+                       names["x"]: [float(10 * r + 2) for r in range(1, R + 1)],
+                       names["c"]: [100 + r for r in range(1, R + 1)]})
+    nm = {"time": names["time"], "id": names["id"], "parent_id": names["parent_id"],
+          "pos": [names["y"], names["x"]], "custom": names["c"]}
+    if x["drop"] in ("time", "id", "parent_id", "pos"):
+        del nm[x["drop"]]
+    elif x["drop"] == "badcol":
+        nm["time"] = "no_such_column"
+    try:
+        tr = tracks_from_df(df, node_name_map=nm)
+    except ValueError:
+        x["err"] = "ValueError"
+        x["nodes"], x["edges"] = [], []
+        return x
+    g = tr.graph
+    nodes = []
+    for n, a in g.nodes(data=True):
+        pos = a.get("pos")
+        nodes.append([int(n), int(a["time"]), int(round(float(pos[0]))) if float(pos[0]).is_integer() else -1,
+                      int(round(float(pos[1]))) if float(pos[1]).is_integer() else -1,
+                      int(a["custom"]) if a.get("custom") is not None else -1])
+    x["err"] = "ok"
+    x["nodes"] = nodes
+    x["edges"] = [[int(u), int(v)] for u, v in g.edges]
+    return x
+
+
 PARTS = {
+    "import_df": (gen_import, run_import),
     "relabel": (gen_relabel, run_relabel),
     "namemap": (gen_namemap, run_namemap),
     "cand_points": (gen_cand_points, run_cand_points),
